@@ -75,7 +75,8 @@ def cli_pattern_cases(ctx, rng):
     from .. import clitools, gen
     with tempfile.TemporaryDirectory(prefix="j2m-c06-") as root:
         jobs, metas = [], []
-        for k in range(ctx.n(3, 12)):
+        n_pat = ctx.n(3, 12)
+        for k in range(n_pat + ctx.n(2, 8)):
             d = os.path.join(root, "c%d" % k)
             files = {}
             for i in range(rng.randint(3, 6)):
@@ -83,6 +84,25 @@ def cli_pattern_cases(ctx, rng):
                 files[name] = [gen.gen_object(rng, 1, rng.sample(gen.WORDS, k=4))]
             clitools.write_files(d, files)
             argv = ["-m", "Page", rng.choice(["**/page_*.json", "**/*.json"])] + rng.choice([[], ["-f", "pydantic"], ["-s", "nested"]])
+            if k >= n_pat:
+                # the other input formats: an ini file (sections with several options, a [DEFAULT] section) and a yaml
+                # document (mappings nested in lists): field order follows the file, whatever the hash seed
+                words = rng.sample(gen.WORDS, k=6)
+                if (k - n_pat) % 2 == 0:
+                    text = "[DEFAULT]\n%s = 1\nzeta = d\n" % words[0] if rng.random() < 0.5 else ""
+                    for sec in ("server", "client", "paths"):
+                        opts = rng.sample(words, k=rng.randint(3, 6))
+                        text += "[%s]\n" % sec + "".join("%s = %s\n" % (o, rng.choice(["1", "x y", "2.5", "true"])) for o in opts)
+                    files = {"conf.ini": text}
+                    argv = ["-m", "Conf", "conf.ini", "-i", "ini"] + rng.choice([[], ["-f", "pydantic"], ["-s", "nested"]])
+                else:
+                    text = "items:\n" + "".join("  - {%s}\n" % ", ".join("%s: %s" % (o, rng.choice(["1", "abc", "2.5", "[1, 2]"]))
+                                                                          for o in rng.sample(words, k=rng.randint(3, 6))) for _ in range(3))
+                    text += "meta:\n" + "".join("  %s: {%s: 1, %s: x}\n" % (o, words[0], words[1]) for o in rng.sample(words, k=4))
+                    files = {"doc.yaml": text}
+                    argv = ["-m", "Doc", "doc.yaml", "-i", "yaml"] + rng.choice([[], ["-f", "attrs"], ["-s", "nested"]])
+                d = os.path.join(root, "f%d" % k)
+                clitools.write_files(d, files)
             for seed in range(ctx.n(6, 12)):
                 jobs.append((argv, d, ctx.repo, seed))
                 metas.append((k, argv, files, seed))
@@ -93,6 +113,7 @@ def cli_pattern_cases(ctx, rng):
     for k, runs in by_case.items():
         ctx.case(("cli-pattern", k, tuple(runs[0][3])), nontrivial=True)
         ref = runs[0]
+        ctx.count("cli-format:" + (ref[3][ref[3].index("-i") + 1] if "-i" in ref[3] else "json") + (":ok" if ref[1] == 0 else ":exit%d" % ref[1]))
         for r in runs[1:]:
             if r[2] != ref[2]:
                 yield {"kind": "hashseed-dependent-cli-output", "argv": ref[3], "files": ref[4], "hashseeds": [ref[0], r[0]],
